@@ -704,6 +704,8 @@ class Gen:
         self.n += 1
         rng = self.rng
         tail = rng.choice(['', '', '', '-é', '&x', ' <a>', '"q"', '漢', '😀']) if rng.random() < 0.3 else ''
+        if rng.random() < 0.1:      # ids that begin with a digit (UUIDs, plain numbers), as real data has them
+            return rng.choice([f'{self.n}', f'8e6a7c1e-{self.n:04d}-4b', f'{self.n}{prefix}']) + tail
         return f'{prefix}{self.n}{tail}'
 
     def word(self):
@@ -749,7 +751,17 @@ class Gen:
         rng = self.rng
         n = rng.choice([1, 2, 2, 3, 5])
         x, y = rng.randint(0, 3000), rng.randint(0, 3000)
-        return [[x + 40 * i + rng.randint(0, 20), y + rng.randint(-3, 3) * (rng.random() < 0.7)] for i in range(n)]
+        pts = [[x + 40 * i + rng.randint(0, 20), y + rng.randint(-3, 3) * (rng.random() < 0.7)] for i in range(n)]
+        # "the same … baseline points … as in the file": the order of the points is the file's — a line of a
+        # right-to-left script (or on a page scanned upside down) runs from right to left, a vertical one keeps its x
+        k = rng.random()
+        if k < 0.2:
+            pts.reverse()
+        elif k < 0.25:
+            rng.shuffle(pts)
+        elif k < 0.3:
+            pts = [[x, y + 40 * i] for i in range(n)]
+        return pts
 
     def te(self, edge=False, need_text=False):
         rng = self.rng
@@ -781,7 +793,9 @@ class Gen:
         nl = rng.choice([0, 1, 1, 2, 3])
         ns = rng.choice([0, 0, 1, 1, 2, 3]) if depth > 0 else 0
         r = {'id': self.uid('r') if rng.random() < 0.9 else None,
-             'orientation': rng.choice(['0.0', '90', '-1.5', '1e1']) if rng.random() < 0.2 else None,
+             # PAGE: -179.999 … 180 degrees; the boundary values included
+             'orientation': rng.choice(['0.0', '90', '-1.5', '1e1', '180', '180.0', '-179.999', '-90', '179.5'])
+             if rng.random() < 0.25 else None,
              'custom': rng.choice(CUSTOMS) if rng.random() < 0.2 else None,
              'coords': self.rect() if has_coords else None,
              'te': self.te(edge) if rng.random() < 0.25 else None,
